@@ -787,4 +787,23 @@ if a2:
 elif b2: c2 = 1; d2 = 2
 else: e2 = 1; f2 = 2
 ''',
+# 44 (f-strings: plain, conversions, format specs, self-documenting fields, nested, multi-line, non-ASCII) ---------
+'''\
+a1 = f"{a}"
+a2 = f"{a = }"
+a3 = f"pre {a = } post"
+a4 = f"{a!r:>{w}}"
+a5 = f"{a}{b = }{c}"
+a6 = f"x{ a + b = !r}y"
+äö = f"ü{a = }"; zß = f"{a}"
+a8 = f"{f'{n}' = }"
+a9 = f"""m
+{a = }
+{b!s}
+"""
+a10 = (f"{a}"
+       f"{b = :>5}")
+def g():
+    return f"{x.y[0]}", f"{fn(p, q) = }"
+''',
 ]
